@@ -125,6 +125,8 @@ class Server:
         # sets are not JSON; children inherit this object through fork
         from . import child
         child.preinstall_monitor()
+        child.GOLDEN_BASE = self.base["data"]
+        self.want_touched = False     # switched on by the worker once hidden state was seen
         self.cache_dir = cache_dir
         try:
             from . import inventory
@@ -180,7 +182,7 @@ class Server:
                     return g
                 except (OSError, ValueError):
                     pass
-        g = self.golden_raw(req)
+        g = self.golden_raw(dict(req, want_touched=True) if self.want_touched else req)
         g["key"] = key
         g["by"] = self.variant.get("name", "?")
         g["req"] = req
@@ -339,6 +341,8 @@ class Server:
             op["gold"] = {"od": C.digest(g["outcome"]), "kind": g["outcome"][0],
                           "count": g["count"], "key": g["key"],
                           "args": [C.digest(a) for a in flat]}
+            if g.get("touched"):
+                op["gold"]["touched"] = g["touched"]
             if g["outcome"][0] == "raised":
                 op["gold"]["exc"] = g["outcome"][1]
             if not g.get("i2", True):
